@@ -103,6 +103,16 @@ def powc(a, c):
     return _chain(a, a.v ** c, c * a.v ** (c - 1))
 
 
+def powv(a, b):
+    """a ^ b with both operands varying: defined and smooth for a > 0 (d = a^b (b' ln a + b a'/a))."""
+    if a.v < MARGIN:
+        raise NotSmooth('variable power of a non-positive base')
+    if abs(b.v) * abs(math.log(a.v)) > 30:
+        raise NotSmooth('magnitude')
+    v = a.v ** b.v
+    return _lin(a, v * b.v / a.v, b, v * math.log(a.v), v)
+
+
 def _exp(a):
     if a.v > 30:
         raise NotSmooth('magnitude')
@@ -227,6 +237,13 @@ def _ev0(t, b, n):
         return _map1(lambda a: powc(a, t[1]), _ev(t[2], b, n))
     if k == 'bin':
         return _map2(BIN_IMPL[t[1]], _ev(t[2], b, n), _ev(t[3], b, n))
+    if k == 'bpow':             # scalar ^ scalar, both sub-trees vary
+        x, y = _ev(t[1], b, n), _ev(t[2], b, n)
+        if isinstance(x, list) or isinstance(y, list):
+            raise ValueError('bpow of a vector')
+        return powv(x, y)
+    if k == 'cexp':             # constant ^ tree
+        return _map1(lambda a: powv(const(t[1], n), a), _ev(t[2], b, n))
     if k == 'red':
         v = _ev(t[2], b, n)
         if not isinstance(v, list) or not v:
@@ -335,6 +352,10 @@ def size(t):
         return 1 + size(t[2])
     if k == 'bin':
         return 1 + size(t[2]) + size(t[3])
+    if k == 'bpow':
+        return 1 + size(t[1]) + size(t[2])
+    if k == 'cexp':
+        return 1 + size(t[2])
     if k == 'join':
         return 1 + size(t[1]) + size(t[2])
     if k == 'view':
